@@ -460,6 +460,8 @@ class Analyzer:
                     self._problem("overflow", fn, e, f"exp argument `{ast.unparse(e.args[0])}` can exceed log(max float) ~ 709.78 (interval {args[0]!r}): math.exp raises OverflowError instead of the value being absorbed by a stable formula")
                 return f_exp(args[0])
             if name == "expm1":
+                if args[0].hi > 709.782712893384:
+                    self._problem("overflow", fn, e, f"expm1 argument `{ast.unparse(e.args[0])}` can exceed log(max float) ~ 709.78 (interval {args[0]!r}): math.expm1 raises OverflowError - the difference of the log-values is exponentiated instead of being absorbed by a stable formula")
                 return f_expm1(args[0])
             if name == "log":
                 x = args[0]
